@@ -303,7 +303,7 @@ def gen_cache_case(rng):
 
 def plan(tier, seed, n):
     sigs = all_sigs()
-    return [{'sigs': sigs[i::n], 'ncache': 40 if tier == 'quick' else 2500, 'stacks': 2 if tier == 'quick' else 25, 'cap': 14 if tier == 'quick' else 60} for i in range(n)]
+    return [{'sigs': sigs[i::n], 'ncache': 120 if tier == 'quick' else 6000, 'stacks': 3 if tier == 'quick' else 40, 'cap': 20 if tier == 'quick' else 80} for i in range(n)]
 
 
 def run(spec, ctx):
